@@ -304,7 +304,8 @@ pub fn isolated<R: serde::Serialize + serde::de::DeserializeOwned + Send>(f: imp
         crate::common::machinery_error("fork() failed");
     }
     if pid == 0 {
-        // child
+        // child (it goes with its parent: see the shard start-up in main.rs)
+        unsafe { libc::prctl(libc::PR_SET_PDEATHSIG, libc::SIGKILL) };
         unsafe { libc::close(fds[0]) };
         // run on a brand-new thread: the forking thread's thread-locals (in
         // particular std's per-thread hash seed, drawn from the real kernel)
